@@ -205,6 +205,11 @@ def c09_case(case):
     got = txt[r.resolution.mstart:r.resolution.mend]; want = pe[base.resolution.mstart:base.resolution.mend]
     if got != want or not (0 <= r.resolution.mstart < r.resolution.mend):
         return {"fail": "span: %r vs alone %r" % (got, want), "text": txt}
+    # exact positions (slices clip, so the comparison above cannot see an end beyond the text)
+    if not (0 <= base.resolution.mstart < base.resolution.mend <= len(pe)):
+        return {"fail": "span: stand-alone span %d-%d lies outside the expression of length %d" % (base.resolution.mstart, base.resolution.mend, len(pe)), "text": e}
+    if (r.resolution.mstart, r.resolution.mend) != (off + base.resolution.mstart, off + base.resolution.mend):
+        return {"fail": "span: positions %d-%d, expected %d-%d (stand-alone span shifted by the words in front)" % (r.resolution.mstart, r.resolution.mend, off + base.resolution.mstart, off + base.resolution.mend), "text": txt}
     if r.subject.split() != pre + base.subject.split() + suf:
         return {"fail": "subject: %r vs %r + surrounding words" % (r.subject, base.subject), "text": txt}
     return {"ok": True, "text": txt}
@@ -219,6 +224,42 @@ def c09_expressions(rng, n_auto):
     ts0 = (2018, 3, 7, 12, 43, 0)
     ex += [(t, ts0) for t in ["8pm", "9-5", "11 to 1", "from 5pm - 7pm", "von 9 bis 11 uhr", "10", "tomorrow 8", "morgen 9", "friday 11", "am 3.4. um 7", "3 Feb 2020", "monday", "5pm - 7pm",
                                "tomorrow 5pm", "12.12.2020 8 uhr", "in the morning", "17:30", "heute 14 uhr"]]
+    # words of the pattern languages that contain non-ASCII letters (case folding / normalisation can change their length)
+    from ctparse.rule import rules as _rules
+    na = set()
+    for name in _rules:
+        k = 0
+        while True:
+            try:
+                ws = G.L(name, k, limit=4000)
+            except IndexError:
+                break
+            except Exception:
+                # language too large to enumerate as a whole: enumerate its named groups one by one
+                ws = []
+                try:
+                    from rxparse import lang as _lang, find_group as _fg
+                    pp, aa = G.ast_of(G.regex_id_of(name, k))
+                    for gname, gi in pp.names.items():
+                        try:
+                            ws += [w.strip() for w in _lang(_fg(aa, gi), 4000) if w.strip()]
+                        except Exception:
+                            pass
+                except Exception:
+                    pass
+            na.update(w for w in ws if any(ord(c) > 127 for c in w))
+            k += 1
+    na = sorted(na)
+    # every non-ASCII character of the pattern languages is covered by at least two words; the rest is sampled
+    must = []
+    for ch in sorted({c for w in na for c in w if ord(c) > 127}):
+        ws = [w for w in na if ch in w]
+        must += rng.sample(ws, min(2, len(ws)))
+    pick = sorted(set(must) | set(na if len(na) <= 40 else rng.sample(na, 40)))
+    for w in pick:
+        for form in ("%s", "%s tage", "für %s minuten", "morgen %s", "%s 8 uhr", "am %s"):
+            ex.append((form % w, ts0))
+            ex.append(((form % w).upper(), ts0))
     return ex
 
 
@@ -294,7 +335,8 @@ def c10_case(case):
 def sweep_c10(rng, tier):
     import multiprocessing as mp
     inert = ["xyzzy", "qwrk", "zoo", "gym", "jog", "привет", "会议", "Lunch", "Bob", "rent", "milk", "call", "plugh"]
-    tags = ["#fun", "#work-1", "#a", "#_x", "#Home_2", "#b-c", "#follow-up", "#to-do", "#urgent", "#family"]
+    # incl. hashtags that are prefixes / extensions of one another and repeated ones
+    tags = ["#fun", "#work-1", "#a", "#_x", "#Home_2", "#b-c", "#follow-up", "#to-do", "#urgent", "#family", "#work", "#a1", "#ab", "#fun2", "#b", "#urgent-2", "#v", "#v2", "#follow"]
     exprs = ["tomorrow", "friday 8pm-9pm", "12.12.2020", "next monday", "8pm", "3 days", "heute 14 uhr", "5th of may", "May 5th 2:30 in the afternoon", "monday", "tomorrow 5pm"]
     seps = [" ", "  ", ", ", "; ", "\t", " (", ") ", " ", " ", "  "]
     ts = (2018, 3, 7, 12, 43, 0)
@@ -326,13 +368,17 @@ def sweep_c10(rng, tier):
 def c11_case(case):
     _init()
     from ctparse import ctparse as cp
-    text, variant, ts = case
+    text, variant, ts = case[:3]
+    whole = len(case) > 3 and case[3]
     try:
         a = cp(text, ts=to_ts(ts), timeout=0); b = cp(variant, ts=to_ts(ts), timeout=0)
     except Exception as x:
         return {"fail": "exception %s" % type(x).__name__}
     if a.resolution != b.resolution:
         return {"fail": "%s vs %s" % (b.resolution, a.resolution)}
+    if whole and (a.labels != b.labels or a.subject != b.subject):
+        # separator / dash variants leave the letters alone: labels and subject agree as well
+        return {"fail": "labels/subject %r %r vs %r %r" % (b.labels, b.subject, a.labels, a.subject)}
     return {"ok": a.resolution is not None}
 
 
@@ -382,6 +428,17 @@ def sweep_c11(rng, tier):
             cases.append((t, v, ts))
         for v in (t.upper(), t.lower(), t.title(), t.swapcase()):
             if v != t: cases.append((t, v, ts))
+    # hashtags and plain words next to separators and dashes: the variant must agree in resolution, labels and subject
+    tagged = ["#sales-5pm", "#sales - 5pm", "lunch #work tomorrow 5pm", "tomorrow #x-8pm", "#a 8pm - 9pm #b", "call bob #follow-up friday", "#to-do - monday 9-5", "5pm #x-y",
+              "jog #gym - tomorrow", "#v 12.12.2020 - 14.12.2020 #v2", "pay rent #home 1.2.2021", "bob - tomorrow 5pm"]
+    for t in tagged:
+        n = C._preprocess_string(t)
+        for _ in range(4 if tier == "quick" else 12):
+            run = lambda: "".join(rng.choice(seps) for _ in range(rng.randint(1, 3)))
+            v = run().join(n.split(" "))
+            v = rng.choice(["", run()]) + v + rng.choice(["", run()])
+            v = "".join((rng.choice(dashes) * rng.randint(1, 2)) if ch == "-" else ch for ch in v)
+            cases.append((t, v, (2018, 3, 7, 12, 43, 0), True))
     # multi-character case folds are outside the domain (DESIGN §9): variants containing them are not generated by str.upper() of these texts except ß -> SS
     cases = [c for c in cases if not ("ß" in c[0] and "SS" in c[1]) and not ("ß" in c[0] and "Ss" in c[1])]
     ctx = mp.get_context("fork")
@@ -392,7 +449,7 @@ def sweep_c11(rng, tier):
         dist["variant parses"] += 1
         if r.get("ok"): seen.add(c[1])
         if "fail" in r:
-            fails.append({"text": c[1], "ts": list(c[2]), "opts": {"canonical": c[0]}, "expected": "same resolution as %r" % c[0], "observed": r["fail"], "what": "C11 variant"})
+            fails.append({"text": c[1], "ts": list(c[2]), "opts": {"canonical": c[0]}, "expected": "same resolution%s as %r" % (", labels and subject" if len(c) > 3 else "", c[0]), "observed": r["fail"], "what": "C11 variant"})
     samples = [{"canonical": c[0], "variant": c[1]} for c in cases[:: max(1, len(cases) // 5)]][:6]
     return {"evaluations": len(cases) + nsep + ndash, "distinct_nontrivial": len(seen), "failures": fails, "samples": samples, "distribution": dict(dist), "exhaustive_part": "all %d separator and %d dash code points" % (nsep, ndash),
             "rule": "every code point of the separator and dash classes as a single separator (exhaustive, function level); corpus/grammar expressions with random separator runs, dash runs (incl. ASCII runs) and upper/lower/title/swap case; non-trivial = distinct variant that resolved"}
@@ -569,6 +626,45 @@ def sweep_c12(rng, tier):
             fails.append({"text": C12_POOL[k[0]][0], "ts": list(ts), "opts": {"PYTHONHASHSEED": sd}, "expected": "same result under every hash seed", "observed": "stream differs between hash seeds", "what": "C12 hash seed"})
     if base is not None and norm(base) != [ref[t] for t, _ in C12_POOL]:
         fails.append({"text": "(fresh interpreter)", "ts": list(ts), "opts": {}, "expected": "fresh process = this process", "observed": "differs", "what": "C12 fresh process"})
+    # 4b. every rule whose whole pattern is one literal-like regex (these are the productions that can hand out a constant):
+    #     a word of its language parsed at two different offsets; the result handed out first must not change afterwards,
+    #     and a stream over the first text suspended after one candidate must not be affected by a complete parse of the second
+    from codec import enc_art as _enc
+    import grammar as _G
+    singles = [n for n, (fn, pats) in rules.items() if len(pats) == 1 and getattr(pats[0], "__name__", "") == "_regex_match"]
+    if tier != "thorough":
+        singles = sorted(singles); rng.shuffle(singles)
+    for name in singles:
+        try:
+            ws = _G.L(name, 0, limit=3000)
+        except Exception:
+            continue
+        if not ws: continue
+        w = rng.choice(ws)
+        ta, tb = "friday 5.5. " + w, "xyzzy plugh at " + w
+        for kw in ({"latent_time": False}, {}):
+            try:
+                r1 = ctparse.ctparse(w, ts=to_ts(ts), timeout=0, **kw)
+                s1 = None if r1.resolution is None else _enc(r1.resolution)
+                r2 = ctparse.ctparse(tb, ts=to_ts(ts), timeout=0, **kw)
+                s1b = None if r1.resolution is None else _enc(r1.resolution)
+                dist["retained results"] += 1
+                if s1 != s1b:
+                    fails.append({"text": w + " || " + tb, "ts": list(ts), "opts": dict(kw, rule=name), "expected": "a result handed out earlier does not change: %s" % s1, "observed": "after parsing the second text it reads %s" % s1b, "what": "C12 retained result"})
+                alone = norm(stream_digest(ta, ts, dict(timeout=0, **kw)))
+                g = ctparse_gen(ta, ts=to_ts(ts), timeout=0, **kw)
+                got = []
+                p = next(g, None)
+                if p is not None: got.append([_enc(p.resolution), [str(x) for x in p.production], round(p.score, 9), p.subject, list(p.labels)])
+                list(ctparse_gen(tb, ts=to_ts(ts), timeout=0, **kw))
+                for p in g:
+                    if p is not None: got.append([_enc(p.resolution), [str(x) for x in p.production], round(p.score, 9), p.subject, list(p.labels)])
+                dist["suspended streams"] += 1
+                if norm(got) != alone:
+                    fails.append({"text": ta + " || " + tb, "ts": list(ts), "opts": dict(kw, rule=name, schedule="A x1, B complete, A rest"), "expected": "stream A as when consumed alone (%d candidates)" % len(alone),
+                                  "observed": "%d candidates, first difference at #%d" % (len(got), next((i for i, (x, y) in enumerate(zip(got, alone)) if x != y), min(len(got), len(alone)))), "what": "C12 interleaving"})
+            except Exception as e:
+                fails.append({"text": ta + " || " + tb, "ts": list(ts), "opts": dict(kw, rule=name), "expected": "no exception", "observed": "%s: %s" % (type(e).__name__, str(e)[:80]), "what": "C12 interleaving"})
     # 5. arguments, scorer model and rule base unchanged
     if snapshot_world() != w0:
         fails.append({"text": "(world)", "ts": list(ts), "opts": {}, "expected": "registry, regex tables and scorer model unchanged by parsing", "observed": "changed", "what": "C12 world"})
@@ -656,7 +752,17 @@ def c13_text(job):
             if v > bound.get(k, 10 ** 9):
                 fails.append({"text": text, "ts": list(ts), "opts": {"depth": depth}, "expected": "at most %d %s operations between two deadline checks" % (bound[k], k), "observed": "%d" % v, "what": "C13 work between checks"})
         step = 1 if (reads <= (2000 if tier == "thorough" else 120)) else max(1, reads // (600 if tier == "thorough" else 100))
-        for deadline in range(0, reads + 2, step):
+        # wall-time budget per text: boundary deadlines first, the rest in random order until the budget is used up
+        import time as _time
+        dls = list(range(0, reads + 2, step))
+        head = list(dict.fromkeys(dls[:6] + dls[-6:]))
+        rest_dl = [d for d in dls if d not in set(head)]
+        rng.shuffle(rest_dl)
+        t_start = _time.time(); budget = 240 if tier == "thorough" else 45
+        for deadline in head + rest_dl:
+            if _time.time() - t_start > budget:
+                dist["expiry points not run (wall-time budget)"] += 1
+                continue
             got, lg, raised, _ = c13_run(text, ts, deadline, depth, VClock)
             dist["expiry points"] += 1
             if raised:
@@ -757,6 +863,14 @@ def sweep_c14(rng, tier):
         for o in ({"latent": False, "depth": 0, "rml": 1.0, "scorer": "shipped", "seed": 0}, {"latent": True, "depth": 10, "rml": 1.0, "scorer": "shipped", "seed": 0},
                   {"latent": False, "depth": rng.choice([0, 3, 10]), "rml": 1.0, "scorer": "const", "seed": 0}, {"latent": rng.random() < 0.5, "depth": rng.choice([0, 1, 3]), "rml": rng.choice([1.0, 0.5]), "scorer": "random", "seed": rng.randrange(99)}):
             cases.append((t, ts, o))
+    # fragment soups under the shipped model: the same value is reached along several rule orders whose scores differ by
+    # summation-order noise only - the re-emission clause is about exactly these
+    frags = ["zwei", "abends", "am Dienstag", "in the morning", "12 am", "next week", "5th", "tomorrow", "8pm", "friday", "morgen", "um 8", "at noon", "heute", "3 days", "for 2 hours", "monday",
+             "5.5.", "may", "2019", "8 uhr", "early", "late", "night", "9-5", "von 9 bis 11", "17:30", "half past 3", "viertel vor 4", "12.12.2020", "next friday", "this evening", "first", "last", "eom"]
+    refs = [(2020, 2, 29, 12, 0, 0), (2018, 3, 7, 12, 43, 0), (2019, 12, 31, 23, 59, 0)]
+    for _ in range(8000 if tier == "thorough" else 2500):
+        t = " ".join(rng.choice(frags) for _ in range(rng.randint(2, 4)))
+        cases.append((t, rng.choice(refs), {"latent": False, "depth": rng.choice([10, 10, 3]), "rml": 1.0, "scorer": "shipped", "seed": 0}))
     ctx = mp.get_context("fork")
     with ctx.Pool(min(16, os.cpu_count() or 1)) as pool:
         recs = pool.map(c14_case, cases, chunksize=4)
@@ -1185,6 +1299,55 @@ def sweep_c18(rng, tier):
             want = (a.value, a.unit) == (b.value, b.unit)
             if (a == b) != want or (want and hash(a) != hash(b)):
                 fails.append({"text": a.nb_str() + " == " + b.nb_str(), "ts": None, "opts": {}, "expected": str(want), "observed": str(a == b), "what": "C18 equality"})
+    # histories: a value that was hashed before it reached its final field values, and values that crossed a process boundary
+    # (pickled in an interpreter with another string-hash seed, after having been hashed there) still hash like a fresh equal value
+    def hist(kind, x, y, how):
+        dist["history: " + kind] += 1
+        ok_eq = (x == y); ok_h = (hash(x) == hash(y)); ok_d = ({x: 1}.get(y) == 1)
+        if not (ok_eq and ok_h and ok_d):
+            fails.append({"text": y.nb_str(), "ts": None, "opts": {"history": how}, "expected": "equal to a freshly built equal value, same hash, found in a dict",
+                          "observed": "eq=%s hash_eq=%s dict_lookup=%s" % (ok_eq, ok_h, ok_d), "what": "C18 hash after " + kind})
+    for _ in range(300 if tier == "thorough" else 60):
+        a = rng.choice(allt); b = rng.choice(allt)
+        x = copy.copy(a); hash(x)
+        for k in keys: setattr(x, k, getattr(b, k))
+        hist("field assignment", x, Time(**dict(zip(keys, vk(b)))), "hashed, then all fields reassigned")
+        x = copy.copy(a); hash(x); x.update_span(b, b); hist("update_span", x, Time(**dict(zip(keys, vk(a)))), "hashed, then update_span")
+        i = Interval(t_from=copy.copy(a), t_to=copy.copy(b)); hash(i); i.t_to = None
+        hist("field assignment", i, Interval(t_from=Time(**dict(zip(keys, vk(a)))), t_to=None), "interval hashed, then t_to cleared")
+        i = Interval(t_from=copy.copy(a), t_to=copy.copy(b)); hash(i); i.t_from.minute = 7
+        ta = Time(**dict(zip(keys, vk(a)))); ta.minute = 7
+        hist("nested field assignment", i, Interval(t_from=ta, t_to=Time(**dict(zip(keys, vk(b))))), "interval hashed, then a field of its start assigned")
+        d = Duration(rng.randrange(100), rng.choice(list(DurationUnit))); hash(d); d.value += 1; u2 = rng.choice(list(DurationUnit)); d.unit = u2
+        hist("field assignment", d, Duration(d.value, u2), "duration hashed, then amount and unit reassigned")
+    code = r'''
+import sys, pickle, base64, warnings
+warnings.simplefilter("ignore")
+sys.path.insert(0, %r)
+from ctparse.types import Time, Interval, Duration, DurationUnit
+from ctparse import ctparse
+from datetime import datetime
+vals = [Duration(3, DurationUnit.DAYS), Duration(45, DurationUnit.MINUTES), Time(POD="morning"), Time(year=2020, month=2, day=29, POD="lateevening"), Time(hour=5, minute=30),
+        Interval(t_from=Time(hour=9), t_to=Time(POD="evening")), Interval(t_from=None, t_to=Time(year=2020, month=1, day=1))]
+for t in ("tomorrow morning", "for 3 days", "friday 8pm-9pm", "12.12.2020 for 2 weeks"):
+    r = ctparse(t, ts=datetime(2018, 3, 7, 12, 43), timeout=0)
+    if r is not None and r.resolution is not None: vals.append(r.resolution)
+for v in vals: hash(v); {v: 1}
+sys.stdout.write(base64.b64encode(pickle.dumps(vals, protocol=4)).decode())
+''' % REPO
+    import base64, pickle
+    for sd in (["1", "2", "77"] if tier == "thorough" else ["1", "77"]):
+        env = dict(os.environ); env["PYTHONHASHSEED"] = sd
+        pr = subprocess.run(["/venv/bin/python", "-c", code], capture_output=True, text=True, env=env, timeout=300)
+        if pr.returncode != 0:
+            fails.append({"text": "(pickle producer)", "ts": None, "opts": {"PYTHONHASHSEED": sd}, "expected": "runs", "observed": pr.stderr[-300:], "what": "C18 pickle"}); continue
+        for v in pickle.loads(base64.b64decode(pr.stdout.strip().split("\n")[-1])):
+            if isinstance(v, Time): fresh = Time(**dict(zip(keys, vk(v))))
+            elif isinstance(v, Interval):
+                mk = lambda t: None if t is None else Time(**dict(zip(keys, vk(t))))
+                fresh = Interval(t_from=mk(v.t_from), t_to=mk(v.t_to))
+            else: fresh = Duration(v.value, v.unit)
+            hist("unpickling (producer hash seed %s)" % sd, v, fresh, "hashed in another interpreter, pickled, loaded here")
     # different kinds are never equal
     if Time() == Interval() or Duration(1, DurationUnit.DAYS) == Time():
         fails.append({"text": "Time() == Interval()", "ts": None, "opts": {}, "expected": "False", "observed": "True", "what": "C18 equality"})
@@ -1230,6 +1393,47 @@ def sweep_c19(rng, tier):
             if a.__name__ == "_regex_match" and b.__name__ == "_regex_match": fails.append({"text": n, "ts": None, "opts": {}, "expected": "no two adjacent patterns", "observed": "adjacent", "what": "C19 adjacent patterns"})
     if len(set(_regex_str.values())) != len(_regex_str) or any(_regex_str[i] != s for s, i in _str_regex.items()):
         fails.append({"text": "regex ids", "ts": None, "opts": {}, "expected": "identical pattern text shares one id", "observed": "duplicate pattern text under two ids", "what": "C19 ids"})
+    # 2b. the registration guards reject faulty definitions *without leaving anything behind* (fresh interpreter: the rejected
+    #     definitions must not pollute this process): tables unchanged, no live pattern matches the empty string, parsing works
+    code = r'''
+import sys, warnings
+warnings.simplefilter("ignore")
+sys.path.insert(0, %r)
+import ctparse
+from ctparse.rule import rule, rules, _regex, _regex_str, _str_regex, predicate, dimension
+from ctparse.types import Time
+from datetime import datetime
+snap = lambda: (sorted(rules), sorted(_regex), sorted(_regex_str.items()), sorted(_str_regex.items()), [(k, v.pattern) for k, v in sorted(_regex.items())])
+s0 = snap()
+bad = []
+for pats in [("",), ("a*",), (r"\s*",), ("x?",), ("(foo)?",), ("foo", "bar"), (dimension(Time), "foo", "bar"), ("|x",)]:
+    try:
+        @rule(*pats)
+        def ruleFaulty(ts, *a): return None
+        bad.append("definition %%r was accepted" %% (pats,))
+    except ValueError:
+        pass
+    except Exception as e:
+        bad.append("definition %%r: %%s instead of ValueError" %% (pats, type(e).__name__))
+    if snap() != s0:
+        bad.append("rejected definition %%r left something behind in the rule / pattern tables" %% (pats,)); break
+for k, rx in _regex.items():
+    if rx.match("") or any(m.end() == m.start() for m in rx.finditer("a 5 x", overlapped=True)):
+        bad.append("live pattern %%r matches the empty string" %% k)
+try:
+    r = ctparse.ctparse("tomorrow 5pm", ts=datetime(2018, 3, 7, 12, 43), timeout=0)
+    if r is None or r.resolution is None or str(r.resolution) != "2018-03-08 17:00 (X/X)": bad.append("parse after rejected definitions: %%s" %% (r,))
+except Exception as e:
+    bad.append("parse after rejected definitions raises %%s: %%s" %% (type(e).__name__, e))
+print("\n".join(bad))
+''' % REPO
+    pr = subprocess.run(["/venv/bin/python", "-c", code], capture_output=True, text=True, timeout=300)
+    dist["registration guards"] = 8
+    out_lines = [l for l in pr.stdout.split("\n") if l.strip()]
+    if pr.returncode != 0:
+        out_lines.append("guard probe crashed: " + pr.stderr[-300:])
+    for l in out_lines[:5]:
+        fails.append({"text": "(rule definitions)", "ts": None, "opts": {"history": "faulty definitions are attempted, then the tables are inspected and a text is parsed"}, "expected": "ValueError and nothing left behind", "observed": l, "what": "C19 registration guard"})
     # 3. no pattern matches the empty string / yields a zero-length match on probe texts
     probes = ["", " ", "  ", "a", "1", ".", "12", "h", "x y", "montag 5", "5.5.", "-", "am", "uhr", "\t", " ", "5 ", " 5", "früh", "5th of may 2020 8pm to 9pm for 3 days"]
     from ctparse.time.corpus import corpus
